@@ -458,6 +458,10 @@ func (c *SpecCtx) object(obj types.Object) TV {
 			c.fail("no global %s", o.Name())
 		}
 		ref := c.e.val(g).(Sc).T
+		if shapeKindOf(o.Type()) == kStruct || shapeKindOf(o.Type()) == kArrayOfComposite {
+			// struct-typed globals are kept as pointers to their storage (fields are then selected through it)
+			return TV{Sc{ref}, types.NewPointer(o.Type())}
+		}
 		return TV{c.e.load(c.heap, locOfRef(ref, o.Type())), o.Type()}
 	}
 	c.fail("unsupported object %s", obj)
